@@ -205,9 +205,10 @@ fn as_index_range(pos_range: &PosRange, text: &str) -> TextRange {
 pub fn get_insertion_index(position: &Position, text: &str) -> usize {
     let mut line = 0;
     let mut character = 0;
-    let pos = (position.line, position.character);
     for (i, c) in text.char_indices() {
-        if (line, character) == pos {
+        // A character outside of the basic multilingual plane takes up two character offsets.
+        // An offset in between them is not skipped, but means the next character.
+        if line == position.line && character >= position.character {
             return i;
         }
         if c == '\n' {
